@@ -146,27 +146,32 @@ fn fail_records(id: usize, sseed: u64, kmax: usize) -> Result<Vec<Value>, String
     let ca = cells(&fa)?;
     let cb = cells(&fb)?;
     let cfg = RunCfg { name: "plain".into(), sched: Sched::None, budgets: None, prefix: false, live: true };
+    // the same history driven in slices (prepare_eval + run_count), as an embedding front end would
+    let cfg_s = RunCfg { name: "slice".into(), sched: Sched::None, budgets: Some(vec![23, 5, 120, 9]), prefix: false, live: false };
     let mut oa = run_session(&ca, &cfg);
+    let mut os = run_session(&ca, &cfg_s);
     let ob = run_session(&cb, &cfg);
-    for (i, it) in items.iter().enumerate() {
-        if i >= oa.len() || i >= ob.len() {
-            break;
-        }
-        if it.probe {
-            let mut t = json!({"r": ob[i]["r"].clone()});
-            for k in ["v", "u", "tr"] {
-                if !ob[i][k].is_null() {
-                    t[k] = ob[i][k].clone();
-                }
+    for o in [&mut oa, &mut os] {
+        for (i, it) in items.iter().enumerate() {
+            if i >= o.len() || i >= ob.len() {
+                break;
             }
-            oa[i]["twin"] = t;
-        }
-        if let Some(first) = it.rep {
-            oa[i]["rep"] = json!(first + 1);
+            if it.probe {
+                let mut t = json!({"r": ob[i]["r"].clone()});
+                for k in ["v", "u", "tr"] {
+                    if !ob[i][k].is_null() {
+                        t[k] = ob[i][k].clone();
+                    }
+                }
+                o[i]["twin"] = t;
+            }
+            if let Some(first) = it.rep {
+                o[i]["rep"] = json!(first + 1);
+            }
         }
     }
     let extra = vec![("tags", json!(tags)), ("kind", json!("fail")), ("seed", json!(sseed))];
-    let ja = session_json_runs(id, &ca, None, vec![("plain".into(), oa)], &extra);
+    let ja = session_json_runs(id, &ca, None, vec![("plain".into(), oa), ("slice".into(), os)], &extra);
     let extra_b = vec![("tags", json!(tags)), ("kind", json!("fail-twin")), ("seed", json!(sseed))];
     let jb = session_json_runs(id + 1, &cb, None, vec![("plain".into(), ob)], &extra_b);
     Ok(vec![ja, jb])
